@@ -216,6 +216,11 @@ def run(chk, repo, tier):
                         and p.outcome[1] == 'IncompleteDataError'):
                     problems.append('absent datum: ' + p.describe()[:200])
                 continue
+            if ref and facts.get(none_atom) is None:
+                problems.append('a value is produced without testing that '
+                                'the reference datum is present: '
+                                + p.describe()[:200])
+                continue
             if facts.get(cp_atom) is False:
                 seen.add('noCp')
                 if ref is None:
